@@ -97,7 +97,28 @@ class FSign:
         self.trip_pos = trip_pos or (lambda L: False)
         self.facts = {}      # term -> Iv
         self.memo = {}
+        known = set()
+
+        def flat(c):
+            if isinstance(c, tuple) and c and c[0] == 'op' and c[1] == 'and':
+                for x in c[2]:
+                    flat(x)
+            elif isinstance(c, tuple):
+                known.add(c)
         for c in facts_conds:
+            flat(c)
+        extra = []
+        for c in list(known):
+            # not(and(a, b, ..)) with all but one conjunct known true  =>  the remaining one is false
+            if c[0] == 'op' and c[1] == 'not' and c[2][0][0] == 'op' and c[2][0][1] == 'and':
+                rest = [x for x in c[2][0][2] if x not in known]
+                if len(rest) == 1:
+                    extra.append(neg_cond(rest[0]))
+            if c[0] == 'op' and c[1] == 'or':
+                rest = [x for x in c[2] if neg_cond(x) not in known]
+                if len(rest) == 1:
+                    extra.append(rest[0])
+        for c in list(facts_conds) + extra:
             self.learn(c, True)
 
     def fact(self, t, iv):
